@@ -81,6 +81,7 @@ class Interp:
         self.loop_ord: dict = {}
         self.comp_ord: dict = {}
         self._maybe: dict = {}
+        self._last_guard = None
         self._comp_ctx = None
         self._assuming: set = set()
         self.global_effects = []
@@ -687,6 +688,37 @@ class Interp:
             old = core.dict_get(d, key)
             st.env[n.func.value.id] = SV(d.ty, z3.If(had, d.t, core.dict_set(d, key, val).t))
             return SV(val.ty, z3.If(had, old.t, val.t))
+        if txt == "final" and self.mode == "spec" and len(n.args) == 1 and isinstance(n.args[0], ast.Name) and "__final__" in st.env:
+            return st.env["__final__"][n.args[0].id]  # value of a (rebound / updated) variable at the return
+        if txt == "object.__setattr__" and len(n.args) == 3 and isinstance(n.args[0], ast.Name):
+            base = st.env.get(n.args[0].id)
+            fld = self.ev(n.args[1], st)
+            val = self.ev(n.args[2], st)
+            if isinstance(base, ObjUnderConstruction) and isinstance(fld, str):
+                base.fields[fld] = val
+                return None
+            if isinstance(base, SV) and base.ty.kind == "u" and isinstance(fld, str):
+                m = registry.CLASS_MODELS.get(base.ty.name)
+                if m is None or fld not in m.fields:
+                    raise Unsupported(f"object.__setattr__ of unmodelled field {fld}")
+                # functional update: a new object term that agrees with the old one on every other field (and its class)
+                new = core.fresh(base.ty, n.args[0].id)
+                for f_ in m.fields:
+                    ft_new = registry.field_term(base.ty.name, f_, new.t)
+                    if f_ == fld:
+                        st.pc.append(ft_new.t == lift(val, ft_new.ty).t)
+                    else:
+                        st.pc.append(ft_new.t == registry.field_term(base.ty.name, f_, base.t).t)
+                st.pc.append(registry.tag_term(base.ty.name, new.t) == registry.tag_term(base.ty.name, base.t))
+                st.env[n.args[0].id] = new
+                return None
+            raise Unsupported("object.__setattr__ on this receiver")
+        if txt == "returns" and self.mode == "spec" and len(n.args) == 1:
+            # returns(f(args)): the mentioned call terminates normally (True for a function that cannot raise)
+            self._last_guard = None
+            self.ev(n.args[0], st)
+            g_ = self._last_guard
+            return SV(TBool, g_ if g_ is not None else z3.BoolVal(True))
         f = self.ev(n.func, st)
         args, kwargs = [], {}
         for a in n.args:
@@ -816,6 +848,24 @@ class Interp:
         h = registry.EXTERNALS.get(d)
         if h is not None:
             return h(self, st, *args, **kwargs)
+        if d in registry.ATTRS_CLASSES:
+            # ASSUMED: the attrs-generated __init__ stores each keyword argument in the field of the same name; fields that
+            # __attrs_post_init__ may replace (listed per class) and defaulted fields stay unconstrained
+            sort, replaced = registry.ATTRS_CLASSES[d]
+            m = registry.CLASS_MODELS[sort]
+            self.assumed_used.add(f"attrs-generated {d}.__init__ stores its keyword arguments in the fields of the same name")
+            if args:
+                raise Unsupported(f"{d}: positional construction of a kw_only attrs class")
+            obj = core.fresh(core.TU(sort), d.rsplit(".", 1)[1].lower())
+            st.pc.append(registry.tag_term(sort, obj.t) == m.tags[d])
+            for k_, v_ in kwargs.items():
+                if k_ not in m.fields:
+                    raise Unsupported(f"{d}: unmodelled field {k_}")
+                if k_ in replaced:
+                    continue
+                ft = registry.field_term(sort, k_, obj.t)
+                st.pc.append(ft.t == lift(v_, ft.ty).t)
+            return obj
         simple = d.rsplit(".", 1)[1]
         if d.startswith("gotranx.exceptions.") or simple.endswith(("Error", "Exception")) or hasattr(builtins, simple) and isinstance(getattr(builtins, simple), type) and issubclass(getattr(builtins, simple), BaseException):
             return ExcVal(simple, args, kwargs)
@@ -1051,6 +1101,8 @@ class Interp:
             else:
                 env[g] = core.fresh(parse_ty(gty), g)
                 self.fresh_ghosts.append(env[g].t)
+        for wname, (wty, _wexpr) in c.witness.items():
+            env[wname] = core.fresh(parse_ty(wty), wname)  # exists: proved for a specific term in the body
         if c.traced and self.mode == "code":
             st.env["__trace__"] = st.env.get("__trace__", ()) + ((c.qualname, dict(env)),)
         cst = State(env, st.pc, st.decisions, st.assumed)
@@ -1063,6 +1115,29 @@ class Interp:
                             self.ev_contract_expr(r, cst, cmod), "call-requires")
         if c.assumed:
             self.assumed_used.add(c.qualname)
+        # normal-termination guard: the postconditions of a function that may raise are facts about the calls that
+        # return.  In code mode the continuation after the call *is* a normal return; in spec mode (a mention inside a
+        # contract) the facts stay guarded, otherwise a postcondition that no result can satisfy for some arguments
+        # (find_state when no state has that name) would make everything after the mention vacuous.
+        ret_guard = None
+        if c.raises:
+            exact = [w_ for w_ in c.raises.values() if w_ != "maybe"]
+            conds = [zbool(lift(self.ev_contract_expr(w_, cst, cmod))) for w_ in exact]
+            if len(exact) == len(c.raises):
+                ret_guard = z3.Not(z3.Or(*conds)) if conds else None
+            else:
+                gargs = [a_ for a_ in uf_args]
+                if c.pure and gargs:
+                    sig_ = ",".join(repr(a_.ty) for a_ in gargs)
+                    gfn = core.uf(f"returns!{c.qualname}{uf_suffix}<{sig_}>", *[a_.ty.sort() for a_ in gargs], z3.BoolSort())
+                    ret_guard = gfn(*[a_.t for a_ in gargs])
+                elif c.pure:
+                    ret_guard = z3.Const("returns!" + c.qualname, z3.BoolSort())
+                else:
+                    ret_guard = core.fresh(TBool, "returns!" + c.qualname.rsplit(".", 1)[-1]).t
+                for cnd in conds:
+                    self.assume(st, SV(TBool, z3.Implies(ret_guard, z3.Not(cnd))))
+        self._last_guard = ret_guard
         if self.mode == "code":
             for exc, when in c.raises.items():
                 if when == "maybe":
@@ -1073,6 +1148,8 @@ class Interp:
                 else:
                     w = self.ev_contract_expr(when, cst, cmod)
                 self.maybe_raise(w, ExcVal(exc, ()), st)
+            if ret_guard is not None:
+                self.assume(st, SV(TBool, ret_guard))
         # result
         result = None
         if c.ret is not None:
@@ -1110,10 +1187,13 @@ class Interp:
                 val = self.ev_contract_expr(e, cst, cmod)
                 if guard is not None:
                     val = SV(TBool, z3.Implies(guard, zbool(lift(val))))
+                if ret_guard is not None and self.mode != "code":
+                    val = SV(TBool, z3.Implies(ret_guard, zbool(lift(val))))
                 self.assume(st, val)
         finally:
             if not nested:
                 self._assuming.discard(c.qualname)
+        self._last_guard = ret_guard
         return result
 
     def ev_contract_expr(self, e, st, module=None):
@@ -1133,6 +1213,33 @@ class Interp:
     def call_builtin(self, name, args, kwargs, st, node):
         if name == "len":
             return length(args[0])
+        if name == "iter" and len(args) == 1:
+            key_ = ("iter", id(node))
+            if key_ not in self._maybe:  # the statement is re-executed after a case split: keep the same order term
+                self._maybe[key_] = to_iter(args[0], site=f"{self.qualname}:{getattr(node, 'lineno', 0)}")
+            return IterCursor(self._maybe[key_])
+        if name == "next" and args and isinstance(args[0], IterCursor):
+            cur = args[0]
+            it_ = cur.it
+            if isinstance(it_, list):
+                if cur.i >= len(it_):
+                    if len(args) > 1:
+                        return args[1]
+                    raise PyRaise(ExcVal("StopIteration"))
+                cur.i += 1
+                return it_[cur.i - 1]
+            n_ = as_int(it_.length())
+            empty = SV(TBool, n_.t <= cur.i)
+            if len(args) > 1:
+                if self.decide(empty, st):
+                    return args[1]
+            else:
+                self.maybe_raise(empty, ExcVal("StopIteration"), st)
+            if isinstance(it_, SetIter):
+                st.pc.append(it_.member_fact(z3.IntVal(cur.i)))
+                st.pc.append(it_.position_fact(z3.IntVal(cur.i)))
+            cur.i += 1
+            return it_.at(cur.i - 1)
         if name == "isinstance":
             return self.isinstance_(args[0], args[1], st)
         if name == "enumerate":
@@ -1923,6 +2030,8 @@ class Interp:
         for nm, g in inv_terms(exit_st, kk.t):
             self.assume(exit_st, g)
         exit_st.env["k"] = kk
+        if isinstance(it, SetIter):
+            exit_st.env[f"ORDER{ordinal}"] = it.order  # witnesses of existential postconditions may name positions in it
         if s.orelse:
             outs.extend(self.exec_block(s.orelse, exit_st))
         else:
@@ -2033,6 +2142,14 @@ class StarArgs:
 class TypeOf:
     def __init__(self, v):
         self.v = v
+
+
+class IterCursor:
+    """iter(x): a cursor over a (symbolic) iterable; next() takes the element at the cursor - for an unordered collection that is
+    an arbitrary member (fresh order per iter() call)"""
+
+    def __init__(self, it):
+        self.it, self.i = it, 0
 
 
 class ObjUnderConstruction:
